@@ -52,6 +52,7 @@ type server struct {
 	closer   io.Closer
 	base     string // http://127.0.0.1:port
 	root     string // the blob root the ops address: /bs/ or /bs-and-maybe-also-index/
+	wroot    string // the root raw uploads go to (root, or /bs-and-index/: the replica bs+index)
 	hc       *http.Client
 	// pkg/client clients: one that discovers the blob root, one addressed at the root in use
 	cl *client.Client
@@ -121,8 +122,9 @@ func (t rewriteTransport) RoundTrip(req *http.Request) (*http.Response, error) {
 	return t.rt.RoundTrip(req)
 }
 
-// buildServer: root is "bs" (the storage itself) or "cond" (/bs-and-maybe-also-index/: schema blobs are
-// also handed to the index, which is where the index kind takes part in an upload)
+// buildServer: root is "bs" (the storage itself), "cond" (/bs-and-maybe-also-index/: schema blobs are
+// also handed to the index, which is where the index kind takes part in an upload) or "replica"
+// (raw uploads go to /bs-and-index/, everything else to /bs/)
 func buildServer(sto, idx, root string) (*server, error) {
 	srcRoot, err := sourceRoot()
 	if err != nil {
@@ -187,8 +189,15 @@ func buildServer(sto, idx, root string) (*server, error) {
 		s.root = "/bs/"
 	case "cond":
 		s.root = "/bs-and-maybe-also-index/"
+	case "replica":
+		// raw uploads through the replica of /bs/ and the index; reads (and pkg/client) on /bs/: reading
+		// through the replica would merge in the index' own enumeration, which /sync/ fills asynchronously
+		s.root, s.wroot = "/bs/", "/bs-and-index/"
 	default:
 		return fail(fmt.Errorf("bad root"))
+	}
+	if s.wroot == "" {
+		s.wroot = s.root
 	}
 	confData, err := json.Marshal(conf)
 	if err != nil {
